@@ -33,6 +33,8 @@ THEOREMS = [
     "Pydjinni.Front.refs_walkT_complete",
     "Pydjinni.Front.refs_walkF",
     "Pydjinni.Front.finishFile_spec",
+    "Pydjinni.Front.violationsOrdered_single",
+    "Pydjinni.Front.regUpTo_last",
 ]
 LEVEL = "proof"
 
@@ -80,6 +82,48 @@ def gen_case(seed_key: str, p_bad: float, multi_file: bool):
     return texts, "/w/m.djinni", dd, {"files": nfiles}
 
 
+SHADOW_KINDS = {
+    "enum": "{n} = enum {{ k; }}", "flags": "{n} = flags {{ k; }}", "record": "{n} = record {{ v: i32; }}",
+    "interface": "{n} = interface {{ m(); }}", "error": "{n} = error {{ oops; }}", "function": "{n} = function (v: i32) -> bool;",
+}
+SHADOW_USES = [
+    "u{i} = record {{ f: {t}; }}", "u{i} = record {{ f: list<{t}>; }}", "u{i} = record {{ f: {t}?; }}",
+    "u{i} = interface {{ m(p: {t}); }}", "u{i} = interface {{ m() -> {t}; }}", "u{i} = interface {{ m() throws {t}; }}",
+    "u{i} = interface {{ m(cb: (p: {t}) -> bool); }}", "u{i} = function (p: {t}) throws {t};",
+    "u{i} = record {{ const c: {t} = 1; f: i32; }}",
+]
+
+
+def shadow_case(seed_key: str):
+    """the same relative spelling, written in the same namespace, denotes different declarations in an imported file
+    (which is finished before the importing file registers anything) and in the importing file, or at two sites of
+    one file; the rules are evaluated on what each site denotes"""
+    r = random.Random(seed_key)
+    ns = r.choice([["app"], ["app", "model"], ["a", "b", "c"]])
+    outer = r.choice([[], ns[:1]]) if len(ns) > 1 else []
+    k1, k2 = r.sample(sorted(SHADOW_KINDS), 2)
+    name = r.choice(["handle", "t", "item"])
+    spell = r.choice([name, name, ns[-1] + "." + name]) if len(ns) > len(outer) + 1 or not outer else name
+    uses = r.sample(SHADOW_USES, r.choice([2, 3, 4]))
+
+    def block(path, body):
+        return body if not path else f"namespace {'.'.join(path)} {{ {body} }}"
+    mk = lambda tag: " ".join(u.format(i=f"{tag}{j}", t=spell) for j, u in enumerate(uses))
+    lib_uses, main_uses, other_uses = mk("l"), mk("m"), mk("o")
+    outer_decl = block(outer, SHADOW_KINDS[k1].format(n=name))
+    inner_decl = SHADOW_KINDS[k2].format(n=name)
+    shape = r.choice(["import-outer-first", "import-inner-first", "one-file"])
+    if shape == "import-outer-first":
+        files = {"/w/lib.djinni": outer_decl + "\n" + block(ns, lib_uses),
+                 "/w/m.djinni": '@import "lib.djinni"\n' + block(ns, (inner_decl + " " + main_uses) if r.random() < 0.5 else (main_uses + " " + inner_decl))}
+    elif shape == "import-inner-first":
+        files = {"/w/lib.djinni": block(ns, inner_decl + " " + lib_uses),
+                 "/w/m.djinni": '@import "lib.djinni"\n' + outer_decl + "\n" + block(ns[:-1] + ["other"], other_uses) + "\n" + block(ns, main_uses)}
+    else:
+        files = {"/w/m.djinni": outer_decl + "\n" + block(ns[:-1] + ["other"], lib_uses) + "\n" + block(ns, inner_decl + " " + main_uses)}
+    return files, "/w/m.djinni", (), {"files": len(files), "shadow": shape}
+
+
 def run(ctx):
     ctx.coverage["rule"] = ("generated programs with rule violations at random positions (member index, parameter/return/throws/generic "
                             "position, namespace depth, own/imported file); distinct = distinct multiset of rule tags reported by the model "
@@ -89,6 +133,9 @@ def run(ctx):
     for i in range(n):
         multi = (i % 3 == 2)
         files, root, dd, meta = gen_case(f"{ctx.seed}/c05/{i}", p_bad=[0.0, 0.15, 0.35][i % 3 if not multi else 1], multi_file=multi)
+        todo.append({"files": files, "root": root, "default_deriving": dd, "meta": meta})
+    for i in range(ctx.n(300, 3000)):
+        files, root, dd, meta = shadow_case(f"{ctx.seed}/c05/shadow/{i}")
         todo.append({"files": files, "root": root, "default_deriving": dd, "meta": meta})
     for t, (impl, req) in zip(todo, front.run_many(ctx.tmp, todo)):
         cases.append((t["files"], t["root"], t["default_deriving"], t["meta"], impl))
